@@ -116,4 +116,18 @@ theorem stalled_off_segment (db : DB) (seg : List Entry) (x : Entry) (h : x ∈ 
       exact this y hy (by simp [hye])
     · simp at h
 
+/-- **stalled blocks are never on the consumer's chain**: a block reported stalled for the segment ending at the new LIB
+    lies at or below the new LIB's height, while every block the consumer still holds pending lies above it -/
+theorem stalled_not_pending (db : DB) (hh : Heights db) (seg : List Entry) (x : Entry) (hx : x ∈ db.stalledInSegment seg)
+    (l : Entry) (hl : seg.getLast? = some l) (Q : List Id) (hQ : IsPath db l.blk.id Q)
+    (hab : ∀ e ∈ db.entries, e.blk.parent = l.blk.id → l.blk.num < e.blk.num)
+    (hfx : db.find x.blk.id = some x) : x.blk.id ∉ Q := by
+  obtain ⟨_, _, f, l', _, hl', _, hle⟩ := stalled_off_segment db seg x hx
+  rw [hl] at hl'
+  injection hl' with hl'
+  subst hl'
+  intro hm
+  have := heights_path db hh l.blk.id l.blk.num Q hQ hab x.blk.id hm x hfx
+  omega
+
 end BstreamVerif.Props.C02
